@@ -2,7 +2,8 @@
    and followed by Print Assumptions. *)
 From Coq Require Import ZArith NArith List Bool Arith.
 From Falcon.lib Require Import PyStr.
-From Falcon.C14 Require Import Spec Oracle Model ModelAsync ProofsDefs ProofsSync ProofsUntil ProofsHistory ProofsAsync ProofsOracle ProofsRefuted.
+From Falcon.C14 Require Import Spec Oracle Model ModelAsync ProofsDefs ProofsSync ProofsUntil ProofsHistory ProofsAsync ProofsAsyncUntil
+  ProofsAsyncHistory ProofsOracle ProofsRefuted.
 Import ListNotations.
 Local Open Scope nat_scope.
 
@@ -52,7 +53,7 @@ Print Assumptions C14_sync_child_is_good_source.
    two deep (delimit / operate / pop), each operation returns exactly what the flat cursor
    returns -- nothing twice, nothing skipped. *)
 Theorem C14_sync_refine_history : forall cs maxlen data sched h,
-  0 < cs -> valid_hist cs 0 h = true ->
+  0 < cs -> ProofsHistory.valid_hist cs 0 h = true ->
   sync_history cs maxlen data sched h = map o_res (spec_history cs maxlen data h).
 Proof. exact refine_history. Qed.
 Print Assumptions C14_sync_refine_history.
@@ -64,7 +65,7 @@ Print Assumptions C14_scripted_source_conforms.
 
 (* the oracle evaluated on the real sync reader accepts the model on every valid history *)
 Theorem C14_oracle_sound_sync : forall cs maxlen data sched h,
-  0 < cs -> valid_hist cs 0 h = true ->
+  0 < cs -> ProofsHistory.valid_hist cs 0 h = true ->
   oracle true cs maxlen data h (map as_obs (sync_history cs maxlen data sched h)) = None.
 Proof. exact oracle_sound_sync. Qed.
 Print Assumptions C14_oracle_sound_sync.
@@ -87,42 +88,52 @@ Definition good_aiter (S : Type) (nxt : S -> option bytes * S) (sabs : S -> byte
     end.
 
 (* refinement, one operation (read / peek / pipe / exhaust), for every source chunking incl.
-   empty chunks; AInv is the representation invariant, aabs the cursor a state stands for *)
+   empty chunks; AInv_total is the representation invariant, aabs the cursor a state stands for *)
 Theorem C14_async_refine_op_basic : forall S nxt sabs smeas cs F T,
   0 < cs -> good_aiter S nxt sabs smeas ->
-  forall st o r st', basic_op o = true -> AInv S sabs smeas F T st ->
+  forall st o r st', basic_op o = true -> AInv_total S sabs smeas F T st ->
   arun_op S nxt cs true F st o = (r, st') ->
-  sp_op cs o (aabs S sabs st) = (r, aabs S sabs st') /\ AInv S sabs smeas F T st'.
-Proof. exact a_refine_op_basic. Qed.
+  sp_op cs o (aabs S sabs st) = (r, aabs S sabs st') /\ AInv_total S sabs smeas F T st'.
+Proof. exact a_refine_op_basic_total. Qed.
 Print Assumptions C14_async_refine_op_basic.
 
 (* tell() is the cursor position; eof is only reported at the end of the cursor *)
 Theorem C14_async_tell_is_position : forall S sabs smeas F T st,
-  AInv S sabs smeas F T st -> atell S st + length (aabs S sabs st) = T.
-Proof. exact atell_spec. Qed.
+  AInv_total S sabs smeas F T st -> atell S st + length (aabs S sabs st) = T.
+Proof. exact atell_spec_total. Qed.
 Print Assumptions C14_async_tell_is_position.
 
 Theorem C14_async_eof_sound : forall S sabs smeas F T st,
-  AInv S sabs smeas F T st -> aeof S st = true -> aabs S sabs st = nil.
-Proof. exact aeof_sound. Qed.
+  AInv_total S sabs smeas F T st -> aeof S st = true -> aabs S sabs st = nil.
+Proof. exact aeof_sound_total. Qed.
 Print Assumptions C14_async_eof_sound.
 
-(* FULL STATEMENT (target): the same for every history of async operations incl. read_until /
-   pipe_until and nested delimit.  Proved part: read / peek / pipe / exhaust histories on the
-   top-level reader, results + tell + eof. *)
-Theorem C14_async_refine_history_read_peek_partial : forall cs F chunks ops,
-  0 < cs -> length chunks + 3 <= F -> forallb basic_op ops = true ->
+(* every async operation (read, peek, read_until with/without size cap and consume, pipe,
+   pipe_until, exhaust) on the top-level reader: histories of any length, results + tell + eof *)
+Theorem C14_async_refine_history_flat : forall cs F chunks ops,
+  0 < cs -> length chunks + 3 <= F -> forallb (async_op cs) ops = true ->
   Forall2 obs_ok (async_history cs true F chunks (flat ops))
           (spec_history cs (length (concat chunks)) (concat chunks) (flat ops)).
-Proof. exact a_refine_history_basic. Qed.
-Print Assumptions C14_async_refine_history_read_peek_partial.
+Proof. exact a_refine_history. Qed.
+Print Assumptions C14_async_refine_history_flat.
 
-Theorem C14_oracle_sound_async_partial : forall cs F chunks ops,
-  0 < cs -> length chunks + 3 <= F -> forallb basic_op ops = true ->
-  oracle false cs (length (concat chunks)) (concat chunks) (flat ops)
-         (async_history cs true F chunks (flat ops)) = None.
-Proof. exact oracle_sound_async_basic. Qed.
-Print Assumptions C14_oracle_sound_async_partial.
+(* THE PROPERTY for the (repaired) async reader: for every list of source chunks (incl. empty
+   and 1-byte chunks), every chunk size >= 1 and EVERY history of valid operations including
+   delimited sub-readers nested two deep, each step's result and tell() are the flat cursor's
+   and eof is only reported at the end of the (sub-)cursor.  [F] is the loop fuel of the
+   model; any value >= number of chunks + 9 will do (the harness passes more). *)
+Theorem C14_async_refine_history : forall cs F chunks h,
+  0 < cs -> length chunks + 9 <= F -> ProofsAsyncHistory.valid_hist cs 0 h = true ->
+  Forall2 obs_ok (async_history cs true F chunks h)
+          (spec_history cs (length (concat chunks)) (concat chunks) h).
+Proof. exact a_refine_history_nested. Qed.
+Print Assumptions C14_async_refine_history.
+
+Theorem C14_oracle_sound_async : forall cs F chunks h,
+  0 < cs -> length chunks + 9 <= F -> ProofsAsyncHistory.valid_hist cs 0 h = true ->
+  oracle false cs (length (concat chunks)) (concat chunks) h (async_history cs true F chunks h) = None.
+Proof. exact oracle_sound_async. Qed.
+Print Assumptions C14_oracle_sound_async.
 
 (* ---------------------------------------------------------------- defects of the code as found *)
 
